@@ -22,7 +22,7 @@ PROP = "C10"
 RULE = (
     "classes with 3 fields (a_x required, b aliased 'bee' with default, c with default) and 1..2 validators (plus 3 on "
     "a reduced alphabet: 12 (deps, kind) descriptors in quick, 16 in thorough): each validator has an enumerated dependency set (every non-empty subset of the fields, read "
-    "directly, through a helper method, through a property, through a functools.cached_property, or through a diamond of helper methods shared by the validators), a kind in {plain, validator(field), validator(discard=g) for "
+    "directly, through a helper method, through a property, through a functools.cached_property, or through a diamond of helper methods shared by the validators), a kind in {plain, validator(field), validator(f, discard=g), validator(discard=g) for "
     "every field g}, an error style in {raise, yield message, yield (get_alias(self).f, message), yield (0, message)}, declared in the class or "
     "in a base class; x every datum assigning each field one of {absent, valid, invalid} x every pass/fail vector x aliaser "
     "in {identity, camelCase}. Observed: the exact sequence of validators invoked (each logs its name first), the sorted "
@@ -43,7 +43,8 @@ def subsets():
             yield s
 
 
-KINDS = [("plain", None)] + [("field", f) for f in FIELDS] + [("discard", f) for f in FIELDS]
+# "fd:f>g" = validator(f, discard=g): located at f, the explicit discard *replaces* the default one (f is not discarded)
+KINDS = [("plain", None)] + [("field", f) for f in FIELDS] + [("discard", f) for f in FIELDS] + [("field_discard", f + ">" + g) for f in FIELDS for g in FIELDS if f != g]
 STYLES = ["raise", "yield", "yield_path", "yield_index0"]
 
 
@@ -55,6 +56,9 @@ def validator_src(name: str, deps, kind, style, by_name: bool = False) -> List[s
         L.append("    @validator")
     elif k == "field":
         L.append(f"    @validator({t})")
+    elif k == "field_discard":
+        f_, g_ = target.split(">")
+        L.append(f"    @validator({f_!r}, discard={g_!r})" if by_name else f"    @validator({f_}, discard={g_})")
     else:
         L.append(f"    @validator(discard={t})")
     L.append(f"    def {name}(self):")
@@ -105,7 +109,7 @@ def class_src(cname: str, vals: List[tuple], inherit: bool) -> str:
     ]
     L = []
     if inherit:
-        base_ok = all(d in ("a_x", "b") for d in vals[0][1]) and (vals[0][2][1] in (None, "a_x", "b"))
+        base_ok = all(d in ("a_x", "b") for d in vals[0][1]) and (vals[0][2][1] in (None, "a_x", "b", "a_x>b", "b>a_x"))
         if not base_ok:
             return ""
         L.append("@dataclass")
@@ -181,9 +185,13 @@ def reference(vals: List[tuple], vec: Dict[str, str], fails: Dict[str, bool], al
                 loc = (0,)
             if kind == "field":
                 loc = (aliaser(ALIAS[target]),) + loc
+            elif kind == "field_discard":
+                loc = (aliaser(ALIAS[target.split(">")[0]]),) + loc
             errors.append((loc, msg))
             if kind in ("field", "discard"):
                 discarded.add(target)
+            elif kind == "field_discard":
+                discarded.add(target.split(">")[1])
     return log, sorted(errors, key=repr), not errors
 
 
@@ -236,7 +244,7 @@ def run_class(mod, cname, vals, inherit, st: infra.Stats):
                 base = {"validators": repr(vals), "inherit": inherit, "aliaser": alname, "datum": repr(d), "fails": repr(fails), "what_class": describe(vals)}
                 aliased = any(ALIAS[f] != f or aliaser(ALIAS[f]) != f for f in vec if vec[f] == "invalid")
                 if got[0] not in ("ok", "err"):
-                    st.violation(dict(base, signature={"kind": "non_termination_or_crash", "exc": got[0], "discard": any(v[2][0] in ("discard", "field") for v in vals)}, what=f"{describe(vals)} on {d} fails={fails}: {got[0]} {got[1]}"[:400]))
+                    st.violation(dict(base, signature={"kind": "non_termination_or_crash", "exc": got[0], "discard": any(v[2][0] in ("discard", "field", "field_discard") for v in vals)}, what=f"{describe(vals)} on {d} fails={fails}: {got[0]} {got[1]}"[:400]))
                     continue
                 if log != exp_log:
                     st.violation(
@@ -247,7 +255,7 @@ def run_class(mod, cname, vals, inherit, st: infra.Stats):
                                 "extra": bool(set(log) - set(exp_log)) or len(log) > len(exp_log),
                                 "missing": bool(set(exp_log) - set(log)),
                                 "invalid_field_is_aliased": aliased,
-                                "discard": any(v[2][0] in ("discard", "field") for v in vals),
+                                "discard": any(v[2][0] in ("discard", "field", "field_discard") for v in vals),
                             },
                             what=f"{describe(vals)} on {d} fails={fails}: validators invoked {log}, expected {exp_log}"[:400],
                         )
@@ -279,7 +287,7 @@ def class_space(tier: str) -> Iterator[Tuple[List[tuple], bool]]:
     # three validators (successive discards accumulate): reduced alphabet; thorough adds the third dependency pair
     small_deps = (("a_x",), ("b",), ("b", "c"), ("a_x", "c")) if tier == "thorough" else (("a_x",), ("b",), ("a_x", "c"))
     if True:
-        small = [(deps, kind) for deps in small_deps for kind in [("plain", None), ("field", "b"), ("discard", "c"), ("discard", "a_x")]]
+        small = [(deps, kind) for deps in small_deps for kind in [("plain", None), ("field", "b"), ("discard", "c"), ("discard", "a_x"), ("field_discard", "a_x>c")]]
         for a, b, c in itertools.product(small, small, small):
             yield [("v0", a[0], a[1], "raise"), ("v1", b[0], b[1], "yield"), ("v2", c[0], c[1], "raise")], False
 
